@@ -894,7 +894,9 @@ func (s *SecureChannel) scheduleExpiration(instance *channelInstance) {
 			// something has gone horribly wrong!
 			debug.Printf("uasc %d: secureChannelID mismatch during scheduleExpiration!", s.c.ID())
 		}
-		if oldInstance.securityTokenID == instance.securityTokenID {
+		// drop the expired instance only: a server may re-use the token id for
+		// the renewed token
+		if oldInstance == instance {
 			continue
 		}
 		s.instances[instance.secureChannelID] = append(
